@@ -108,6 +108,7 @@ fn region_of(addr: u64) -> usize {
 /// walks the whole lifecycle (construction, use, drop)
 pub fn oracle_quiesced(c: &mut Case, toks: &[Tok], transport_resets_on_drop: bool) {
     let mut st = Live::default();
+    let note = if transport_resets_on_drop { "" } else { " [on a transport that does not reset the device when dropped]" };
     for (i, t) in toks.iter().enumerate() {
         match t {
             Tok::Status(0) => st = Live::default(),
@@ -123,14 +124,14 @@ pub fn oracle_quiesced(c: &mut Case, toks: &[Tok], transport_resets_on_drop: boo
                 if st.driver_ok {
                     for (q, rs) in &st.queues {
                         if rs.contains(k) {
-                            c.fail(format!("event {}: dma_dealloc(D{}) while the device is live on queue {} (DRIVER_OK set, queue enabled, no reset)", i, k, q));
+                            c.fail(format!("event {}: dma_dealloc(D{}) while the device is live on queue {} (DRIVER_OK set, queue enabled, no reset){}", i, k, q, note));
                         }
                     }
                 }
             }
             Tok::FreePosted(n) => {
                 if st.driver_ok && !st.queues.is_empty() {
-                    c.fail(format!("event {}: {} driver-owned buffer(s) still posted to the device freed while the device is live (queues {:?} enabled)", i, n, st.queues.keys().collect::<Vec<_>>()));
+                    c.fail(format!("event {}: {} driver-owned buffer(s) still posted to the device freed while the device is live (queues {:?} enabled){}", i, n, st.queues.keys().collect::<Vec<_>>(), note));
                 }
             }
             _ => {}
@@ -284,6 +285,12 @@ pub fn one_case(sc: &Scenario, id: String, mut rng: crate::rng::Rng) -> Case {
         }
     }
     oracle_quiesced(&mut c, &all, true);
+    // `Transport` does not oblige an implementation to reset on drop. All drivers except sound and
+    // 9p (which have no `Drop` and rely on the transport, see Props/C09 `needs_reset_on_drop`)
+    // disable their queues themselves, so for them the same must hold without the reset.
+    if !matches!(cfg.d, Drv::Sound | Drv::P9) {
+        oracle_quiesced(&mut c, &all, false);
+    }
     c
 }
 
